@@ -7,6 +7,8 @@ driver for the rotation model (engine `rotate`).  One case = `cfg …`, operatio
 cfg <keep> <cyclePeriod> <fileSize> <flushPeriod> <reuse 0|1> <hsize>,<hsize>…   → ok
         (periods in 1/8 s; resets; one log per header size: the logger has that many logs)
 adv <n> | ctl start|run|stop | reboot                                    → ok
+fault <i> <n>                            → ok    the n-th os.rename call (from 0) on log i's files from now
+                                                 raises OSError without moving anything
 die start|run|stop <g>                   → ok    the process is killed inside the control after g primitives
                                                  (counted over all logs in the order the code performs them:
                                                  loop by loop, log by log), then a new process
@@ -35,6 +37,7 @@ def showFS (keep : Nat) (fs : FS) : String :=
 
 def showPrim : Prim → String
   | .write _ => "W" | .sync => "S" | .closeF => "C" | .rename k => "R" ++ toString k
+  | .renameErr k => "E" ++ toString k
   | .create => "N" | .openA => "A" | .touch k => "T" ++ toString k
   | .reboot => "X" | .newdir => "D"
 
@@ -122,6 +125,10 @@ def step (st : Option MSt) (line : String) : Option MSt × String :=
     | some i, some x => if i < s.length then (some (s.step (.batch i x)), "ok") else (st, "bad-op")
     | _, _ => (st, "bad-op")
   | ["reboot"], some s => (some (s.step .reboot), "ok")
+  | ["fault", i, n], some s =>
+    match i.toNat?, n.toNat? with
+    | some i, some n => if i < s.length then (some (s.step (.fault i n)), "ok") else (st, "bad-op")
+    | _, _ => (st, "bad-op")
   | ["ctl", c], some s =>
     match parseCtl c with
     | some c => (some (s.step (.ctl c)), "ok")
